@@ -5,7 +5,7 @@ import concurrent.futures, json, os, subprocess, sys
 VERIF = "/verif"
 EXTRA = {  # related checks that are also tried
     "C01": ["C19", "C06", "C05", "C20", "C03", "C07"], "C19": ["C01", "C06"], "C04": ["C18", "C02", "C03", "C14"], "C18": ["C04", "C10", "C02", "C11", "C12"], "C10": ["C18", "C11", "C12", "C09", "C20", "C06", "C08", "C02"], "C08": ["C14", "C04", "C02", "C01", "C07"], "C07": ["C08", "C01", "C05"],
-    "C09": ["C17", "C02", "C05", "C04", "C03"], "C17": ["C20", "C03", "C04"], "C03": ["C14", "C04"], "C06": ["C01", "C07", "C05", "C08"], "C14": ["C03", "C09", "C17"], "C02": ["C20", "C04", "C18", "C16", "C01"], "C20": ["C02", "C06"], "C05": ["C13", "C17"], "C12": ["C18", "C13"], "C13": ["C12", "C05"], "C11": ["C10", "C05"], "C16": ["C02", "C09"], "C15": ["C03", "C04"],
+    "C09": ["C17", "C02", "C05", "C12", "C08"], "C17": ["C20", "C03", "C04"], "C03": ["C14", "C04"], "C06": ["C01", "C07", "C05", "C08"], "C14": ["C03", "C09", "C17"], "C02": ["C20", "C04", "C18", "C16", "C01"], "C20": ["C02", "C06"], "C05": ["C13", "C17"], "C12": ["C18", "C13"], "C13": ["C12", "C05"], "C11": ["C10", "C05"], "C16": ["C02", "C09"], "C15": ["C03", "C04", "C01", "C07"],
 }
 
 def one(name):
